@@ -72,6 +72,16 @@ pub struct Shard {
 
 static REPLAY_N: std::sync::atomic::AtomicU64 = std::sync::atomic::AtomicU64::new(0);
 
+static PARTIAL_OUT: std::sync::Mutex<Option<std::path::PathBuf>> = std::sync::Mutex::new(None);
+static PARTIAL_VIOLATIONS: std::sync::Mutex<Vec<Value>> = std::sync::Mutex::new(Vec::new());
+
+/// the result file of this shard process (set by the runner before the check starts)
+pub fn set_partial_out(p: &std::path::Path) {
+    if let Ok(mut g) = PARTIAL_OUT.lock() {
+        *g = Some(p.to_path_buf());
+    }
+}
+
 impl Shard {
     pub fn add(&mut self, name: &str, n: u64) {
         *self.counters.entry(name.to_string()).or_insert(0) += n;
@@ -115,6 +125,14 @@ impl Shard {
         let body = json!({"property": property, "signature": sig, "detail": detail, "seed": seed, "replay": replay});
         let _ = std::fs::write(&path, serde_json::to_string_pretty(&body).unwrap_or_default());
         self.violations.push(Violation { sig: sig.to_string(), detail: detail.to_string(), replay: path.to_string_lossy().to_string() });
+        // a violation is an observation made: it must survive a shard that later hangs or dies (the parent merges the
+        // violations of a partial result file), so the shard's result file is written as soon as there is one
+        if let (Ok(out), Ok(mut all)) = (PARTIAL_OUT.lock(), PARTIAL_VIOLATIONS.lock()) {
+            if let Some(out) = out.as_ref() {
+                all.push(json!({"sig": sig, "detail": detail, "replay": path.to_string_lossy()}));
+                let _ = std::fs::write(out, serde_json::to_string(&json!({"partial": true, "violations": *all})).unwrap_or_default());
+            }
+        }
         false
     }
 
